@@ -278,11 +278,13 @@ def _shard(job):
                 # misuse of the annotation language at every parameter position, all other
                 # parameters well-typed -> AnnotationError, never TypeCheckError / swallowed
                 _, k, pos, kind = item
-                bad_spec = {"treepath": ["arr", "?q"], "symbolic": ["arr", "zz+1"], "composite": ["pytree", ["int"], "U V"], "dtype-isinstance": None}[kind]
+                bad_spec = {"treepath": ["arr", "?q"], "symbolic": ["arr", "zz+1"], "fstring": ["arr", "{zz}"], "fstring-expr": ["arr", "a {zz.k}+1"], "composite": ["pytree", ["int"], "U V"], "dtype-isinstance": None}[kind]
                 pspecs = [["arr", "a"]] * k
                 pspecs = list(pspecs)
                 pspecs[pos] = bad_spec
                 vals = [Duck((2,)) for _ in range(k)]
+                if kind == "fstring-expr":
+                    vals[pos] = Duck((2, 3))
                 if kind == "composite":
                     vals[pos] = (1, 2)
                 for tc in ("typeguard", "beartype"):
@@ -338,7 +340,7 @@ def work_items(tier):
             work.append(("ext", list(ks), None, False))
     for k in (1, 2, 3):
         for pos in range(k):
-            for kind in ("treepath", "symbolic", "composite"):
+            for kind in ("treepath", "symbolic", "fstring", "fstring-expr", "composite"):
                 work.append(("annot", k, pos, kind))
     return work
 
